@@ -327,6 +327,60 @@ def _c07_worker(job):
     return out, nruns, sample
 
 
+def sequence_algebra_contracts(r):
+    """Run-time validation of the *assumed* contracts of the sequence algebra
+    (contracts/seq_revolve.py): Operation.__init__/cost, Sequence.__init__/insert/insert_sequence/
+    shift/remove_useless_wm, on the real classes."""
+    from fractions import Fraction
+    from checkpoint_schedules.hrevolve_sequences.basic_functions import Operation, Sequence, Function
+    from checkpoint_schedules.hrevolve_sequences.revolve import revolve
+    from checkpoint_schedules.hrevolve_sequences.disk_revolve import disk_revolve
+    params = {"uf": Fraction(3), "ub": Fraction(5), "wd": Fraction(7), "rd": Fraction(11), "up": 1}
+    table = {"Forward": ([2, 6], 4 * params["uf"]), "Backward": ([6, 5], params["ub"]),
+             "Read_disk": (3, params["rd"]), "Write_disk": (3, params["wd"]), "Read_memory": (3, 0),
+             "Write_memory": (3, 0), "Write_Forward_memory": (3, 0), "Discard_memory": (3, 0),
+             "Discard_disk": (3, 0), "Discard_Forward_memory": (3, 0), "Checkpoint": (3, 0)}
+    n = 0
+
+    def bad(what, d):
+        r["violations"].append(_viol("C07", "sequence_algebra_contracts", ("seq", what), d))
+    for t, (idx, want) in table.items():
+        op = Operation(t, idx, params)
+        n += 1
+        if not (op.type == t and op.index == idx and op.params is params):
+            bad("Operation.__init__", t)
+        if op.cost() != want:
+            bad("Operation.cost", "%s: %s expected %s" % (t, op.cost(), want))
+        seq = Sequence(Function("Revolve", 3, 1))
+        if seq.makespan != 0:
+            bad("Sequence.__init__", seq.makespan)
+        seq.insert(Operation("Forward", [0, 2], params))
+        before = seq.makespan
+        seq.insert(op)
+        if seq.makespan != before + want:
+            bad("Sequence.insert", t)
+    for l in range(0, 8):
+        for cm in range(1, 4):
+            a = revolve(l, cm, 2, 2, 3, 5)
+            b = disk_revolve(l, cm, 2, 2, 3, 5)
+            for sq in (a, b):
+                n += 1
+                m0 = sq.makespan
+                if sq.shift(4) is not sq or sq.makespan != m0:
+                    bad("Sequence.shift", (l, cm))
+                outer = Sequence(Function("Revolve", l, cm))
+                outer.insert(Operation("Forward", [0, 1], params))
+                m1 = outer.makespan
+                outer.insert_sequence(sq)
+                if outer.makespan != m1 + m0:
+                    bad("Sequence.insert_sequence", (l, cm))
+            m0 = a.makespan
+            if a.remove_useless_wm() is not a or a.makespan != m0:
+                bad("Sequence.remove_useless_wm", (l, cm))
+    r["evaluations"] += n
+    r["clauses"].append("sequence_algebra_contracts")
+
+
 def c07(tier, seed):
     tp = boxes.tier_params(tier)
     r = _result("n<=%d, RAM units<=%d, disk units<=%d, %d cost vectors incl. uf!=ub, wd!=rd, zeros" % (
@@ -355,6 +409,7 @@ def c07(tier, seed):
             r["samples"].append(sample)
         for clause, spec, d in viol:
             r["violations"].append(_viol("C07", clause, spec, d))
+    sequence_algebra_contracts(r)
     return r
 
 
